@@ -225,6 +225,38 @@ class C13(Prop):
             both("CliffordCircuit.backward", lambda B: circ(B).backward(B.state(rows, r)))
             both("CliffordCircuit.compile.forward", lambda B: circ(B).compile().forward(B.plist(ops)))
             both("CliffordCircuit.compile.backward", lambda B: circ(B).compile().backward(B.plist(ops)))
+            # call-order sequences (stale caches must be stale in the same way, or not at all, in both packages)
+            hg = [w for w in herm if any(w[:-1])]
+            if len(hg) >= 2:
+                def recompile(B):
+                    C = B.circuit
+                    c = circ(B)
+                    g = C.CliffordGate(*range(n))
+                    g.set_generator(B.pauli(hg[0]))
+                    c.take(g)
+                    c.compile()
+                    g.set_generator(B.pauli(hg[1]))
+                    c.compile()
+                    return c.forward(B.plist(ops))
+                both("seq:compile,set_generator,compile,forward", recompile)
+
+                def regate(B):
+                    C = B.circuit
+                    g = C.CliffordGate(*range(n))
+                    g.set_generator(B.pauli(hg[0]))
+                    g.compile()
+                    x = g.forward(B.plist(ops))
+                    g.set_generator(B.pauli(hg[1]))
+                    g.compile()
+                    return [x, g.backward(B.plist(ops)), g.forward(B.plist(ops))]
+                both("seq:gate.compile,set_generator,compile", regate)
+
+                def copycompile(B):
+                    c = circ(B)
+                    d = c.copy()
+                    d.compile()
+                    return [c.forward(B.plist(ops)), d.backward(B.plist(ops)), c.forward_map is None]
+                both("seq:copy,compile", copycompile)
             both("diagonalize(state)", lambda B: B.circuit.diagonalize(B.state(rows, 0)).forward(B.state(rows, 0)))
         return out
 
